@@ -1,25 +1,26 @@
-(* StatePkgs.v — the Go packages each property is anchored in (directories of properties.jsonl anchors.files). *)
+(* StatePkgs.v — the Go packages each property is anchored in (directories of properties.jsonl anchors.files,
+   followed by the module-internal packages that code imports and whose state can reach it at run time: see DESIGN 2.3). *)
 From Coq Require Import List String.
 Import ListNotations.
 Open Scope string_scope.
 
 Definition pkgs_C01 : list string := ["circuit"; "ot"].
-Definition pkgs_C02 : list string := ["circuit"; "ot"; "p2p"].
-Definition pkgs_C03 : list string := ["compiler"; "compiler/ast"; "compiler/circuits"; "compiler/ssa"].
-Definition pkgs_C04 : list string := ["circuit"; "compiler/ssa"; "sha2pc"].
-Definition pkgs_C05 : list string := ["circuit"; "compiler"; "compiler/ssa"].
+Definition pkgs_C02 : list string := ["circuit"; "ot"; "p2p"; "env"].
+Definition pkgs_C03 : list string := ["compiler"; "compiler/ast"; "compiler/circuits"; "compiler/ssa"; "compiler/mpa"; "compiler/utils"; "types"; "circuit"].
+Definition pkgs_C04 : list string := ["circuit"; "compiler/ssa"; "sha2pc"; "ot"; "p2p"; "env"; "compiler/circuits"].
+Definition pkgs_C05 : list string := ["circuit"; "compiler"; "compiler/ssa"; "compiler/circuits"; "compiler/ast"; "compiler/mpa"; "types"].
 Definition pkgs_C06 : list string := ["ot"].
 Definition pkgs_C07 : list string := ["compiler/circuits"].
-Definition pkgs_C08 : list string := ["apps/garbled"; "compiler"; "compiler/ast"; "compiler/circuits"; "compiler/ssa"].
-Definition pkgs_C09 : list string := ["circuit"; "compiler/circuits"; "compiler/ssa"; "compiler/utils"].
-Definition pkgs_C10 : list string := ["circuit"; "gmw"; "ot"].
+Definition pkgs_C08 : list string := ["apps/garbled"; "compiler"; "compiler/ast"; "compiler/circuits"; "compiler/ssa"; "compiler/mpa"; "compiler/utils"; "types"; "circuit"].
+Definition pkgs_C09 : list string := ["circuit"; "compiler/circuits"; "compiler/ssa"; "compiler/utils"; "compiler/mpa"; "types"; "compiler"; "compiler/ast"].
+Definition pkgs_C10 : list string := ["circuit"; "gmw"; "ot"; "p2p"; "env"].
 Definition pkgs_C11 : list string := ["p2p"].
-Definition pkgs_C12 : list string := ["compiler/ast"; "compiler/mpa"; "compiler/ssa"].
+Definition pkgs_C12 : list string := ["compiler/ast"; "compiler/mpa"; "compiler/ssa"; "compiler/circuits"; "types"; "compiler/utils"].
 Definition pkgs_C13 : list string := ["."; "circuit"; "types"].
 Definition pkgs_C14 : list string := ["circuit"; "types"].
 Definition pkgs_C15 : list string := ["ot"].
-Definition pkgs_C16 : list string := ["circuit"; "compiler/ssa"].
-Definition pkgs_C17 : list string := ["circuit"].
-Definition pkgs_C18 : list string := ["ot"; "sha2pc"].
-Definition pkgs_C19 : list string := ["p2p"].
-Definition pkgs_C20 : list string := ["bmr"; "ot"; "vole"].
+Definition pkgs_C16 : list string := ["circuit"; "compiler/ssa"; "env"; "ot"; "p2p"].
+Definition pkgs_C17 : list string := ["circuit"; "ot"].
+Definition pkgs_C18 : list string := ["ot"; "sha2pc"; "circuit"].
+Definition pkgs_C19 : list string := ["p2p"; "ot"].
+Definition pkgs_C20 : list string := ["bmr"; "ot"; "vole"; "p2p"].
